@@ -48,6 +48,26 @@ def deintOk (l : ECL) (v : Nat) : Bool :=
   ((List.range sizes.length).flatMap fun b => (Decode.blockPositions sizes b).map fun k => idxs.getD k dc)
     == List.range dc
 
+/-- the ISO de-interleaving positions in closed form: block `b` takes its EC codewords from EC-part
+positions b, nb + b, 2 nb + b, …; its data codewords from the positions where the crate put source
+indices offset(b), offset(b) + 1, …; the Table 9 block sizes add up to `data_codewords` -/
+def ecLayoutOk (l : ECL) (v : Nat) : Bool :=
+  let g := T.groups l v
+  let idxs := dataIdxs g.1 g.2.1 g.2.2.1 g.2.2.2
+  let sizes := Decode.blockSizes v l
+  let nb := sizes.length
+  let ec := Decode.ecLen v l
+  let dc := T.dataCodewords l v
+  sizes.foldl (· + ·) 0 == dc &&
+  (List.range nb).all fun b =>
+    Decode.ecPositions nb ec b == (List.range ec).map (fun j => j * nb + b) &&
+    decide (blockOffset sizes b + sizes.getD b 0 ≤ dc) &&
+    (Decode.blockPositions sizes b).map (fun k => idxs.getD k dc) ==
+      (List.range (sizes.getD b 0)).map (fun i => blockOffset sizes b + i)
+
+theorem ecLayoutOk_all : (ECL.all.all fun l => (List.range 40).all fun v => ecLayoutOk l v) = true := by
+  native_decide
+
 theorem deintOk_all : (ECL.all.all fun l => (List.range 40).all fun v => deintOk l v) = true := by
   native_decide
 
